@@ -37,4 +37,7 @@ def subchecks(tier):
     base = system_subcheck("lattice", prof, lambda spec: [Conservation()], nontrivial, classes=classes,
                             n={"quick": 7200, "thorough": 40000},
                             rule="full lattice, conservation monitor after every event")
-    return [base, fuzz_subcheck(base, tier)]
+    region = system_subcheck("sched_blocked", common.region_profile("C01"), lambda spec: [Conservation()],
+                             lambda a, spec, res: a.get("rec_interrupted_service", 0) >= 1 and a.get("blocked_records", 0) >= 1, classes=classes,
+                             n={"quick": 3600, "thorough": 30000}, rule="pre-emptive schedules x blocking region (heavy load, grid times); same monitor")
+    return [base, region, fuzz_subcheck(base, tier)]
